@@ -915,6 +915,13 @@ class SimExecutor:
     def shutdown(self, wait: bool = True, cancel_futures: bool = False) -> None:
         self.shutdown_flag = True
         s = self.sim
+        if cancel_futures:
+            import concurrent.futures
+
+            for f, _fn, _a, _k in self.queue:
+                f._exc = concurrent.futures.CancelledError()
+                f._done = True
+            self.queue = []
         if wait and s.in_task():
             s.seam("executor.shutdown")
             s.block_until(lambda: all(w.done for w in self.workers), "executor.join")
